@@ -132,7 +132,14 @@ class Ctx(object):
         return thorough if self.tier == "thorough" else quick
 
     def set_budget(self, quick_s, thorough_s):
-        self.budget_s = self.pick(quick_s, thorough_s)
+        # the quick tier's exploration budget is stretched by a common factor (default 1.5): the fixed openings and sweeps
+        # added with every strengthened class take a growing share of the module's own figure, and the random stream
+        # behind them must not be starved (two seeded changes caught earlier were missed for exactly that reason)
+        try:
+            scale = float(os.environ.get("VERIF_QUICK_SCALE", "1.5"))
+        except ValueError:
+            scale = 1.5
+        self.budget_s = self.pick(quick_s * max(scale, 0.1), thorough_s)
 
     def time_left(self):
         if self.budget_s is None:
